@@ -21,90 +21,292 @@ def WFTargets (tg : List Row) : Prop := ∀ r ∈ tg, 0 ≤ r.s ∧ r.s ≤ r.e
 
 theorem cov_shrinkRows (pad : Int) (acc : List Row) (p : Int) :
     cov (shrinkRows pad acc) p ↔ inShrunk pad acc p := by
-  sorry
+  simp only [cov, inShrunk, shrinkRows, List.mem_filter, List.mem_map, decide_eq_true_eq]
+  constructor
+  · rintro ⟨k, ⟨⟨r, hr, rfl⟩, hk⟩, h1, h2⟩
+    refine ⟨r, hr, ?_⟩
+    dsimp only at hk h1 h2
+    omega
+  · rintro ⟨r, hr, h1, h2⟩
+    refine ⟨_, ⟨⟨r, hr, rfl⟩, ?_⟩, ?_, ?_⟩ <;> dsimp only <;> omega
 
 theorem shrinkRows_pos (pad : Int) (acc : List Row) :
     ∀ k ∈ shrinkRows pad acc, 0 ≤ k.s ∧ k.s < k.e := by
-  sorry
+  intro k hk
+  simp only [shrinkRows, List.mem_filter, List.mem_map, decide_eq_true_eq] at hk
+  obtain ⟨⟨r, _, rfl⟩, hk⟩ := hk
+  dsimp only at hk ⊢
+  omega
 
 theorem cov_growRows (pad : Int) (hpad : 0 ≤ pad) (tg : List Row) (h : WFTargets tg) (p : Int)
     (hp : 0 ≤ p) : cov (growRows pad tg) p ↔ nearTarget pad tg p := by
-  sorry
+  simp only [cov, nearTarget, growRows, List.mem_map]
+  constructor
+  · rintro ⟨k, ⟨r, hr, rfl⟩, h1, h2⟩
+    have := h r hr
+    refine ⟨r, hr, ?_⟩
+    dsimp only at h1 h2
+    omega
+  · rintro ⟨r, hr, h1, h2⟩
+    have := h r hr
+    refine ⟨_, ⟨r, hr, rfl⟩, ?_, ?_⟩ <;> dsimp only <;> omega
 
 theorem growRows_pos (pad : Int) (hpad : 0 < pad) (tg : List Row) (h : WFTargets tg) :
     ∀ r ∈ growRows pad tg, r.s < r.e := by
-  sorry
+  intro k hk
+  simp only [growRows, List.mem_map] at hk
+  obtain ⟨r, hr, rfl⟩ := hk
+  have := h r hr
+  dsimp only
+  omega
+
+theorem cov_flatMap (l : List Row) (f : Row → List Row) (p : Int) :
+    cov (l.flatMap f) p ↔ ∃ k ∈ l, cov (f k) p := by
+  simp only [cov, List.mem_flatMap]
+  constructor
+  · rintro ⟨r, ⟨k, hk, hr⟩, h⟩
+    exact ⟨k, hk, r, hr, h⟩
+  · rintro ⟨k, hk, r, hr, h⟩
+    exact ⟨r, ⟨k, hk, hr⟩, h⟩
+
+/-- one keeper: what `subtractRow` leaves of it after cutting out the merged grown targets -/
+theorem antiKeeper_cov (pad : Int) (hpad : 0 < pad) (tg : List Row) (h : WFTargets tg)
+    (k : Row) (p : Int) :
+    cov (subtractRow k (overlapping k (mergeSorted (growRows pad tg)))) p ↔
+      (k.s ≤ p ∧ p < k.e) ∧ ¬ cov (growRows pad tg) p := by
+  have hpos : ∀ r ∈ sortSE (growRows pad tg), r.s < r.e := fun r hr =>
+    growRows_pos pad hpad tg h r ((mem_sortSE _ r).mp hr)
+  have := subtractRow_cov_merged k (sortSE (growRows pad tg)) (sortSE_sorted _) hpos p
+  rw [cov_sortSE] at this
+  exact this
 
 /-- what is left for antitargets on the chromosome: exactly the shrunk accessible bases that are
     not within `pad` of a target -/
 theorem antiRegionsChrom_cov (pad : Int) (hpad : 0 < pad) (acc tg : List Row) (h : WFTargets tg)
     (p : Int) :
     cov (antiRegionsChrom pad acc tg) p ↔ inShrunk pad acc p ∧ ¬ nearTarget pad tg p := by
-  sorry
+  unfold antiRegionsChrom
+  rw [cov_flatMap, ← cov_shrinkRows]
+  constructor
+  · rintro ⟨k, hk, hc⟩
+    rw [antiKeeper_cov pad hpad tg h] at hc
+    obtain ⟨⟨h1, h2⟩, h3⟩ := hc
+    have hk0 := shrinkRows_pos pad acc k hk
+    rw [cov_growRows pad (Int.le_of_lt hpad) tg h p (by omega)] at h3
+    exact ⟨⟨k, hk, h1, h2⟩, h3⟩
+  · rintro ⟨⟨k, hk, h1, h2⟩, h3⟩
+    refine ⟨k, hk, ?_⟩
+    rw [antiKeeper_cov pad hpad tg h]
+    have hk0 := shrinkRows_pos pad acc k hk
+    rw [cov_growRows pad (Int.le_of_lt hpad) tg h p (by omega)]
+    exact ⟨⟨h1, h2⟩, h3⟩
 
 theorem antiRegionsChrom_pos (pad : Int) (acc tg : List Row) :
     ∀ q ∈ antiRegionsChrom pad acc tg, q.s < q.e := by
-  sorry
+  intro q hq
+  unfold antiRegionsChrom at hq
+  obtain ⟨k, hk, hq⟩ := List.mem_flatMap.mp hq
+  rcases subtractRow_carry k _ q hq with ⟨_, _, h⟩ | rfl
+  · exact h
+  · exact (shrinkRows_pos pad acc q hk).2
+
+/-! ### `nameAnti` only changes the gene -/
+
+theorem mem_nameAnti (l : List Row) (b : Row) :
+    b ∈ nameAnti l ↔ ∃ r ∈ l, b = { r with gene := Generated.ANTITARGET_NAME } := by
+  simp only [nameAnti, List.mem_map]
+  constructor
+  · rintro ⟨r, hr, rfl⟩; exact ⟨r, hr, rfl⟩
+  · rintro ⟨r, hr, rfl⟩; exact ⟨r, hr, rfl⟩
+
+theorem cov_nameAnti (l : List Row) (p : Int) : cov (nameAnti l) p ↔ cov l p := by
+  simp only [cov, mem_nameAnti]
+  constructor
+  · rintro ⟨b, ⟨r, hr, rfl⟩, h⟩; exact ⟨r, hr, h⟩
+  · rintro ⟨r, hr, h⟩; exact ⟨_, ⟨r, hr, rfl⟩, h⟩
+
+theorem antiMerged_canon (pad : Int) (acc tg : List Row) :
+    Canon (mergeSorted (antiRegionsChrom pad acc tg)) :=
+  mergeSorted_canon _ (antiRegionsChrom_pos pad acc tg)
+
+/-- a bin of `antiChrom` comes from a bin of `splitRow` of a merged region -/
+theorem mem_antiChrom {pad : Int} {avg : Rat} {m : Int} {acc tg : List Row} {b : Row}
+    (hb : b ∈ antiChrom pad avg m acc tg) :
+    ∃ M ∈ mergeSorted (antiRegionsChrom pad acc tg), M.s < M.e ∧
+      ∃ x ∈ splitRow avg m M, b.s = x.s ∧ b.e = x.e ∧ b.gene = Generated.ANTITARGET_NAME := by
+  unfold antiChrom at hb
+  obtain ⟨x, hx, rfl⟩ := (mem_nameAnti _ b).mp hb
+  obtain ⟨M, hM, hx⟩ := List.mem_flatMap.mp hx
+  exact ⟨M, hM, (antiMerged_canon pad acc tg).1 M hM, x, hx, rfl, rfl, rfl⟩
 
 theorem antiChrom_named (pad : Int) (avg : Rat) (m : Int) (acc tg : List Row) :
     ∀ b ∈ antiChrom pad avg m acc tg, b.gene = Generated.ANTITARGET_NAME := by
-  sorry
+  intro b hb
+  obtain ⟨_, _, _, _, _, _, _, h⟩ := mem_antiChrom hb
+  exact h
 
 theorem antiChrom_inside_far (pad : Int) (hpad : 0 < pad) (avg : Rat) (havg : 0 < avg) (m : Int)
     (acc tg : List Row) (h : WFTargets tg) :
     ∀ b ∈ antiChrom pad avg m acc tg, ∀ p, b.s ≤ p → p < b.e →
       inShrunk pad acc p ∧ ¬ nearTarget pad tg p := by
-  sorry
+  intro b hb p h1 h2
+  obtain ⟨M, hM, hMpos, x, hx, hs, he, _⟩ := mem_antiChrom hb
+  have hw := splitRow_within avg havg m M (Int.le_of_lt hMpos) x hx
+  rw [← antiRegionsChrom_cov pad hpad acc tg h p, ← mergeSorted_cov]
+  exact ⟨M, hM, by omega, by omega⟩
 
 theorem antiChrom_pairwise (pad : Int) (avg : Rat) (havg : 0 < avg) (m : Int) (acc tg : List Row) :
     (antiChrom pad avg m acc tg).Pairwise (fun x y => x.e ≤ y.s) := by
-  sorry
+  unfold antiChrom nameAnti
+  rw [List.pairwise_map]
+  exact flatMap_splitRow_pairwise avg havg m _ (antiMerged_canon pad acc tg)
 
 theorem antiChrom_size_lower (pad : Int) (avg : Rat) (havg : 0 < avg) (m : Int)
     (hm : (m : Rat) ≤ 3 / 4 * avg) (acc tg : List Row) :
     ∀ b ∈ antiChrom pad avg m acc tg, m ≤ b.e - b.s := by
-  sorry
+  intro b hb
+  obtain ⟨M, hM, hMpos, x, hx, hs, he, _⟩ := mem_antiChrom hb
+  have := splitRow_size_lower avg havg m hm M (Int.le_of_lt hMpos) x hx
+  omega
 
 theorem antiChrom_size_upper (pad : Int) (avg : Rat) (havg : 4 ≤ avg) (m : Int) (acc tg : List Row) :
     ∀ b ∈ antiChrom pad avg m acc tg, ((b.e - b.s : Int) : Rat) ≤ 3 / 2 * avg := by
-  sorry
+  intro b hb
+  obtain ⟨M, hM, hMpos, x, hx, hs, he, _⟩ := mem_antiChrom hb
+  have := splitRow_size_upper avg havg m M (Int.le_of_lt hMpos) x hx
+  rw [hs, he]
+  exact this
 
 theorem antiChrom_positive (pad : Int) (avg : Rat) (havg : 1 ≤ avg) (m : Int) (acc tg : List Row) :
     ∀ b ∈ antiChrom pad avg m acc tg, b.s < b.e := by
-  sorry
+  intro b hb
+  obtain ⟨M, hM, hMpos, x, hx, hs, he, _⟩ := mem_antiChrom hb
+  have := splitRow_positive avg havg m M hMpos x hx
+  omega
 
 /-- every stretch `[u, v)` of at least `m` off-target shrunk-accessible bases is covered by bins -/
 theorem antiChrom_covers (pad : Int) (hpad : 0 < pad) (avg : Rat) (havg : 0 < avg) (m : Int)
     (acc tg : List Row) (h : WFTargets tg) (u v : Int) (huv : u < v) (hlen : m ≤ v - u)
     (hfree : ∀ p, u ≤ p → p < v → inShrunk pad acc p ∧ ¬ nearTarget pad tg p) :
     ∀ p, u ≤ p → p < v → cov (antiChrom pad avg m acc tg) p := by
-  sorry
+  intro p h1 h2
+  have hC := antiMerged_canon pad acc tg
+  have hcov : ∀ q, u ≤ q → q < v → cov (mergeSorted (antiRegionsChrom pad acc tg)) q := by
+    intro q hq1 hq2
+    rw [mergeSorted_cov, antiRegionsChrom_cov pad hpad acc tg h q]
+    exact hfree q hq1 hq2
+  obtain ⟨M, hM, hMs, hMe⟩ := interval_in_canon _ hC u v huv hcov
+  unfold antiChrom
+  rw [cov_nameAnti, flatMap_splitRow_cov avg havg m _ hC p]
+  exact ⟨M, hM, by omega, by omega, by omega⟩
 
 /-! ### contig selection -/
 
 theorem mem_chromsInOrder (t : Table) (c : String) : c ∈ chromsInOrder t ↔ ∃ r ∈ t, r.chrom = c := by
-  sorry
+  simp only [chromsInOrder, List.mem_eraseDups, List.mem_map]
+
+/-- the contigs `drop_noncanonical_contigs` skips -/
+def skipOf (acc tg : Table) : List String :=
+  let ac := chromsInOrder acc
+  let tc := chromsInOrder tg
+  let untgt := ac.filter (fun c => !tc.contains c)
+  if tc.any isCanonicalName then untgt.filter (fun c => !isCanonicalName c)
+  else
+    let mx := (tc.map String.length).foldl max 0
+    untgt.filter (fun c => c.length > mx)
+
+theorem dropNoncanonical_eq (acc tg : Table) :
+    dropNoncanonical acc tg =
+      if chromNamesClash acc tg then .error "ValueError"
+      else .ok (acc.filter (fun r => !(skipOf acc tg).contains r.chrom)) := rfl
+
+theorem dropNoncanonical_ok {acc tg a : Table} (h : dropNoncanonical acc tg = .ok a) :
+    a = acc.filter (fun r => !(skipOf acc tg).contains r.chrom) := by
+  rw [dropNoncanonical_eq] at h
+  split at h
+  · cases h
+  · injection h with h; exact h.symm
+
+/-- a skipped contig has no target -/
+theorem skipOf_untargeted (acc tg : Table) (c : String) (hc : c ∈ skipOf acc tg) :
+    c ∉ chromsInOrder tg := by
+  unfold skipOf at hc
+  simp only at hc
+  split at hc
+  · have := (List.mem_filter.mp (List.mem_filter.mp hc).1).2
+    simpa using this
+  · have := (List.mem_filter.mp (List.mem_filter.mp hc).1).2
+    simpa using this
+
+/-- with a canonical target contig: skipped = accessible, untargeted, not canonical -/
+theorem mem_skipOf_canonical (acc tg : Table)
+    (hany : (chromsInOrder tg).any isCanonicalName = true) (c : String) :
+    c ∈ skipOf acc tg ↔
+      c ∈ chromsInOrder acc ∧ c ∉ chromsInOrder tg ∧ isCanonicalName c = false := by
+  unfold skipOf
+  simp only
+  rw [if_pos hany]
+  have hcont : ((chromsInOrder tg).contains c = false) ↔ c ∉ chromsInOrder tg := by
+    rw [← Bool.not_eq_true, List.contains_iff_mem]
+  simp only [List.mem_filter, Bool.not_eq_eq_eq_not, Bool.not_true, and_assoc, hcont]
+
+theorem any_canonical (tg : Table) (hc : ∃ t ∈ tg, isCanonicalName t.chrom = true) :
+    (chromsInOrder tg).any isCanonicalName = true := by
+  obtain ⟨t, ht, h⟩ := hc
+  rw [List.any_eq_true]
+  exact ⟨t.chrom, (mem_chromsInOrder tg t.chrom).mpr ⟨t, ht, rfl⟩, h⟩
 
 theorem dropNoncanonical_sub (acc tg a : Table) (h : dropNoncanonical acc tg = .ok a) :
     ∀ r ∈ a, r ∈ acc := by
-  sorry
+  intro r hr
+  rw [dropNoncanonical_ok h] at hr
+  exact (List.mem_filter.mp hr).1
 
 theorem dropNoncanonical_keeps_targeted (acc tg a : Table) (h : dropNoncanonical acc tg = .ok a)
     (r : Row) (hr : r ∈ acc) (ht : ∃ t ∈ tg, t.chrom = r.chrom) : r ∈ a := by
-  sorry
+  rw [dropNoncanonical_ok h]
+  refine List.mem_filter.mpr ⟨hr, ?_⟩
+  have : r.chrom ∉ skipOf acc tg := fun hc =>
+    skipOf_untargeted acc tg r.chrom hc ((mem_chromsInOrder tg r.chrom).mpr ht)
+  simpa using this
 
 theorem dropNoncanonical_keeps_canonical (acc tg a : Table) (h : dropNoncanonical acc tg = .ok a)
     (hc : ∃ t ∈ tg, isCanonicalName t.chrom = true)
     (r : Row) (hr : r ∈ acc) (hn : isCanonicalName r.chrom = true) : r ∈ a := by
-  sorry
+  rw [dropNoncanonical_ok h]
+  refine List.mem_filter.mpr ⟨hr, ?_⟩
+  have : r.chrom ∉ skipOf acc tg := fun hs => by
+    have := ((mem_skipOf_canonical acc tg (any_canonical tg hc) r.chrom).mp hs).2.2
+    rw [hn] at this
+    cases this
+  simpa using this
 
 theorem dropNoncanonical_only (acc tg a : Table) (h : dropNoncanonical acc tg = .ok a)
     (hc : ∃ t ∈ tg, isCanonicalName t.chrom = true) :
     ∀ r ∈ a, (∃ t ∈ tg, t.chrom = r.chrom) ∨ isCanonicalName r.chrom = true := by
-  sorry
+  intro r hr
+  rw [dropNoncanonical_ok h] at hr
+  obtain ⟨hracc, hns⟩ := List.mem_filter.mp hr
+  have hns : r.chrom ∉ skipOf acc tg := by simpa using hns
+  rw [mem_skipOf_canonical acc tg (any_canonical tg hc)] at hns
+  by_cases ht : r.chrom ∈ chromsInOrder tg
+  · left; exact (mem_chromsInOrder tg r.chrom).mp ht
+  · right
+    cases hcn : isCanonicalName r.chrom with
+    | true => rfl
+    | false =>
+      exact absurd ⟨(mem_chromsInOrder acc r.chrom).mpr ⟨r, hracc, rfl⟩, ht, hcn⟩ hns
 
 theorem dropNoncanonical_refuses (acc tg : Table) :
     (∃ e, dropNoncanonical acc tg = .error e) ↔ chromNamesClash acc tg = true := by
-  sorry
+  rw [dropNoncanonical_eq]
+  constructor
+  · rintro ⟨e, he⟩
+    split at he
+    · assumption
+    · cases he
+  · intro hc
+    rw [if_pos hc]
+    exact ⟨_, rfl⟩
 
 end CnvVerif
